@@ -4,6 +4,7 @@
    transfers. *)
 From Coq Require Import List NArith ZArith Bool.
 From TT Require Import Lib.BytesL Generated.MetricsFacts Model.Metrics Proofs.MetricsProofs.
+From TT Require Import Generated.TimeoutFacts Model.QuicTimers Proofs.QuicTimersProofs.
 Import ListNotations.
 Open Scope Z_scope.
 
@@ -71,9 +72,40 @@ Example ex_counting_offered_datagrams_overcounts :
   /\ delivered_datagram_bytes [(100, true); (100, false); (100, true)]%N = 200%N.
 Proof. split; reflexivity. Qed.
 
+(* "returning to zero when all clients are gone", for QUIC: a session ends when its connection is found closed, and a
+   connection whose client went away is closed by one of its own timers (drain after the peer's close, idle). In the model of
+   the multiplexer's timer bookkeeping (Model/QuicTimers.v), for every history of packets, rounds and removals, whatever the
+   library answers: every armed deadline is served - left alone, the loop comes round by itself no later than that deadline -
+   an expired connection that still has a timer is armed again with it, and a round leaves the unexpired ones alone. *)
+Theorem quic_timer_of_a_gone_client_fires :
+  (forall next ops now c t,
+     In (c, t) (dl (qrun QUIC_EXPIRED_TIMERS_REARMED next ops)) ->
+     exists d, will_wake QUIC_TIMER_ARM_ENABLED_WHENEVER_ARMED (qrun QUIC_EXPIRED_TIMERS_REARMED next ops) now = Some d
+               /\ (d <= N.max t now)%N)
+  /\ (forall next s now c t d, In (c, t) (dl s) -> (t <= now)%N -> next c now = Some d ->
+        In (c, (now + d)%N) (dl (qstep QUIC_EXPIRED_TIMERS_REARMED next s (Wake now))))
+  /\ (forall next s now c t, In (c, t) (dl s) -> (now < t)%N ->
+        In (c, t) (dl (qstep QUIC_EXPIRED_TIMERS_REARMED next s (Wake now)))).
+Proof.
+  split; [exact armed_deadline_is_served_proof|].
+  split; [exact expired_is_rearmed_proof|].
+  exact (unexpired_is_kept_proof QUIC_EXPIRED_TIMERS_REARMED).
+Qed.
+Print Assumptions quic_timer_of_a_gone_client_fires.
+
+(* as found (the closest deadline only moved backwards, the timer arm was enabled only while it lay in the future): connection 1's
+   first timer expires at 10; its client's close arrives at 12 and arms the drain timer for 13; nothing wakes the loop any more,
+   the connection is never found closed and its session, tunnels and sockets stay counted *)
+Example ex_as_found_the_drain_timer_never_fires :
+  let s := qrun false (fun _ _ => None) [Arm 1 10; Wake 10; Arm 1 13] in
+  In (1%N, 13%N) (dl s) /\ will_wake false s 12 = None
+  /\ will_wake true (qrun true (fun _ _ => None) [Arm 1 10; Wake 10; Arm 1 13]) 12 = Some 13%N.
+Proof. vm_compute. repeat split. left. reflexivity. Qed.
+
 Theorem code_facts :
   METRICS_COUNT_SENT_DATAGRAMS_ONLY = true /\ METRICS_NAMES_AND_LABELS = true /\ METRICS_COLLECT_OWN_REGISTRY = true /\ METRICS_GUARDS_AS_MODELLED = true
-  /\ METRICS_UPLOAD_IS_INBOUND = true /\ METRICS_COUNT_SENT_BYTES_ONLY = true /\ METRICS_LISTENER_AS_MODELLED = true.
+  /\ METRICS_UPLOAD_IS_INBOUND = true /\ METRICS_COUNT_SENT_BYTES_ONLY = true /\ METRICS_LISTENER_AS_MODELLED = true
+  /\ QUIC_TIMER_ARM_ENABLED_WHENEVER_ARMED = true /\ QUIC_EXPIRED_TIMERS_REARMED = true.
 Proof. repeat split; exact eq_refl. Qed.
 Print Assumptions code_facts.
 
